@@ -243,6 +243,94 @@ def rule_A_EFF(ctx, repo, cache, must_read_only=False):
                     ctx.fail('A-EFF', mq(ci, op), 'clear never clears', '%s.clear has no path that empties the store' % ci.label, wh(ci, fi.node.lineno))
 
 
+def rule_A_EQ(ctx, repo, cache):
+    """equality between archives compares contents: every answer other than NotImplemented derives from a read of the store"""
+    for ci in [c for c in archive_classes(repo) if c.label in PERSISTENT]:
+        fi, outs, eng = cache.outs(ci, '__eq__')
+        if fi is None:
+            continue
+        bad = None
+        for o in outs:
+            if o.kind != RETURN:
+                continue
+            v = o.val
+            if v == ('lib', 'NotImplemented'):
+                continue
+            read = any(c == 'read' for e, c in effects(o))
+            iscmp = v[0] in ('cmp', 'not') or (v[0] == 'and')
+            if not (read and iscmp):
+                bad = o
+        ctx.ob('A-EQ', ci.label, bad is None)
+        if bad is not None:
+            ctx.fail('A-EQ', mq(ci, '__eq__'), '__eq__ answers %s without comparing contents' % render(bad.val)[:40],
+                     '%s.__eq__ can answer %s on a path that does not compare the stored contents of the two archives (equality between archives must compare contents)' % (
+                         ci.label, render(bad.val)[:60]), wh(ci, bad.line), render_path(bad))
+
+
+def rule_A_PUBFAIL(ctx, repo, cache):
+    """a store whose value could not be encoded neither publishes the half-written staging copy nor removes the live object"""
+    for lab, routine in sorted(STORE_ROUTINES.items()):
+        ci = archive_classes(repo, [lab])[0]
+        params = {'new': C(True)} if lab == 'hdf_archive[hdf]' else None
+        fi, outs, eng = cache.outs(ci, routine, params=params, key='new' if params else None)
+        bad = None
+        n = 0
+        for o in outs:
+            evs = o.st.events
+            for i, e in enumerate(evs):
+                if e.kind in ('WRITE!', 'ENCODE!') and e.args and e.args[-1] in (C('TypeError'), C(GENERIC), C('AttributeError')) \
+                        and (e.kind == 'ENCODE!' or on_self_store(e.args[0])):
+                    n += 1
+                    for x in evs[i + 1:]:
+                        if x.kind == e.kind[:-1] and e.kind == 'ENCODE!':
+                            break       # the handler retried the encoding successfully (byname fallback): recovered
+                        if x.kind == 'RENAME' and on_self_store(x.args[1]):
+                            bad = (o, e, x, 'publishes the half-written staging copy over the live object')
+                        elif x.kind in ('UNLINK', 'RMTREE') and x.args and on_self_store(x.args[0]) and not same_path(x.args[0], staging_of(evs)):
+                            bad = (o, e, x, 'removes the live object')
+                    break
+        ctx.ob('A-PUBFAIL', '%s.%s (%d encode-failure paths)' % (lab, routine, n), bad is None)
+        if bad is not None:
+            o, e, x, what = bad
+            ctx.fail('A-PUBFAIL', mq(ci, routine), 'failed encode still %s' % x.kind,
+                     'when the value cannot be encoded (%s at %s) %s.%s still %s (%s at %s): a failed write destroys what was stored' % (
+                         e.args[-1][1], wh(ci, e.line), lab, routine, what, x.kind, wh(ci, x.line)), wh(ci, x.line), render_path(o))
+        if n == 0:
+            raise AnalysisError('%s.%s: no encode-failure edge found (may-raise table out of date?)' % (lab, routine))
+
+
+def staging_of(evs):
+    for e in evs:
+        if e.kind == 'MKDIR' and on_self_store(e.args[0]):
+            return e.args[0]
+        if e.kind == 'OPENW' and on_self_store(e.args[0]) and e.args[0] != ('state', 'id'):
+            return e.args[0]
+    return ('opaque', 'nostaging')
+
+
+def rule_A_TXN(ctx, repo, cache):
+    """a single-key SQL operation is one transaction: no commit between two of its DML statements"""
+    for ci in archive_classes(repo, ['sqltable_archive[sql]', 'sqltable_archive[!sql]', 'sql_archive[sql]']):
+        for name in ('__setitem__', '__delitem__', 'pop', 'setdefault'):
+            fi, outs, eng = cache.outs(ci, name)
+            if fi is None:
+                continue
+            bad = None
+            for o in outs:
+                evs = o.st.events
+                dml = [i for i, e in enumerate(evs) if e.kind == 'SQL' and e.args[0][1] in ('insert', 'update', 'delete')]
+                for a, b in zip(dml, dml[1:]):
+                    if any(e.kind == 'COMMIT' for e in evs[a + 1:b]):
+                        bad = (o, evs[a], evs[b])
+            ctx.ob('A-TXN', '%s.%s' % (ci.label, name), bad is None)
+            if bad is not None:
+                o, e1, e2 = bad
+                ctx.fail('A-TXN', mq(ci, name), '%s committed before %s' % (e1.args[0][1], e2.args[0][1]),
+                         '%s.%s commits its %s (%s) and then issues a separate %s (%s): a kill or a concurrent reader between the two transactions sees the key '
+                         'with neither its old nor its new value' % (ci.label, name, e1.args[0][1], wh(ci, e1.line), e2.args[0][1], wh(ci, e2.line)),
+                         wh(ci, e2.line), render_path(o))
+
+
 def is_whole_file(ci):
     return ci.name in ('file_archive', 'hdf_archive')
 
@@ -612,6 +700,8 @@ def rule_A_PUB(ctx, repo, cache):
         for o in outs:
             for e in o.st.events:
                 if e.kind in ('OPENW', 'WRITE') and e.args and final is not None and e.args[0] == final:
+                    inplace = (o, e)
+                if e.kind == 'COPY' and len(e.args) > 1 and final is not None and e.args[1] == final:
                     inplace = (o, e)
         ctx.ob('A-PUB', '%s.%s no in-place write' % (lab, routine), inplace is None)
         if inplace is not None:
